@@ -47,8 +47,10 @@ CLAIMED["C08"] = dict(
        "PrefixWrapper, libpass inspectors and hashers): no content-dependent assert, no constant index into hash-derived data without a dominating "
        "length/truthiness guard, no table lookup keyed by hash data outside KeyError handling (taint analysis with path-sensitive guards and callee "
        "summaries); a str|bytes hash is normalised before any text operation (type flow + PrefixWrapper sibling rule); base64 decode-map lookups map "
-       "KeyError to ValueError; parsed digests are size/charset-validated and verify compares the whole digest. Not decided: that an altered digest "
-       "differs after recomputation.",
+       "KeyError to ValueError; parsed digests are size/charset-validated and verify compares the whole digest; every `raise <factory>` is a call; "
+       "numeric fields reach int() only as canonical ASCII decimal text (digit tests, [0-9] groups whose DFA rejects zero padding, re-render comparison); "
+       "anchored hash regexes end in \\Z or use fullmatch; base64.b64decode is strict; settings used as table keys are validated by membership; the digest is "
+       "stored before digest-sensitive parse hooks run; fixed-offset parsers cut at the declared sizes. Not decided: that an altered digest differs after recomputation.",
   note=STATIC_NOTE,
   technique="interprocedural taint analysis (hash string -> exception-raising sinks) + str/bytes type flow + sibling rule")
 CLAIMED["C09"] = dict(
@@ -167,7 +169,9 @@ CLAIMED["C20"] = dict(
        "literal skeletons; bcrypt-sha256 PHC parameter names/order equal passlib's v2 template; required literal prefixes of the libpass formats are pairwise "
        "incompatible (identify exactness); _sha_crypt is statement-for-statement _raw_sha2_crypt, tables and hash64 engines are equal; hash() and verify() feed the "
        "primitive through the same slots, implicit rounds 5000, pbkdf2 digest/size, whole-digest constant-time comparison; bcrypt-sha256 pre-hash roles on both "
-       "sides; needs_update = other format or other cost; the libpass context facts; helper copies. Not decided: digest equality as executed.",
+       "sides; identify/verify/needs_update of a hasher read the string through one record parser, needs_update = other format or other cost; every parsed record "
+       "field is consumed or pinned; digit groups converted with int() are length-bounded (identify stays total); the cost validator accepts exactly passlib's window; "
+       "the libpass context facts; helper copies. Not decided: digest equality as executed.",
   note=STATIC_NOTE, technique="cross-API skeleton/regex agreement + sibling unification + slot/role agreement rules")
 
 NOT_APPLICABLE = {p: "check under construction in this session (will be claimed once its rules are built and validated on the clean tree)"
